@@ -4,7 +4,7 @@
    (lsstep) - for EVERY history. *)
 From Coq Require Import List ZArith QArith Qcanon Bool Arith Lia.
 From Dimod Require Import Base.Util Model.Poly Model.Expr Model.ExprOps Model.CQMSpec Model.ExprLab
-  Proofs.PolyFacts Proofs.CoeffSound Proofs.ExprFacts Proofs.ExprViewFacts Proofs.RefineFacts Proofs.ExprSim Proofs.CqmSim.
+  Proofs.PolyFacts Proofs.CoeffSound Proofs.ExprFacts Proofs.ExprViewFacts Proofs.RefineFacts Proofs.ExprSim Proofs.CqmSim Proofs.LabVars.
 Import ListNotations.
 Open Scope Qc_scope.
 
@@ -460,11 +460,12 @@ Proof.
       * rewrite <- LV. apply (Forall2_RL_map labels); [apply with_inv; [rewrite Hlen; exact Ic|exact Rc]|].
         intros e P Ie Re. rewrite Hlen in Ie. apply (lab_substitute n); assumption.
   - (* relabel_variables *)
-    destruct (relabel_ok mp labels && nodupb (map (relabel_fun mp) labels)) eqn:G;
+    destruct (relabel_ok mp labels && nodupb (map fst mp)) eqn:G;
       [|exact (conj ND (conj Hlen (conj Hv (conj Inv (conj Ro Rc)))))].
-    apply andb_true_iff in G. destruct G as [_ G].
+    apply andb_true_iff in G. destruct G as [G1 G2].
+    pose proof (relabel_ok_nodup mp labels ND (nodupb_NoDup _ G2) G1) as G.
     unfold LState. cbn [l_labels l_q sl_vars sl_obj sl_cons].
-    split; [apply nodupb_NoDup; exact G|]. split; [rewrite map_length; exact Hlen|]. split.
+    split; [exact G|]. split; [rewrite map_length; exact Hlen|]. split.
     + rewrite Hv, combine_map_l. reflexivity.
     + split; [exact Inv|]. split.
       * apply (lab_relabel n); assumption.
